@@ -109,7 +109,14 @@ func (q *queue) close() {
 		return
 	}
 	q.sched.Disable()
-	q.b.Close()
+	// a queue whose lock is wedged (that is a finding of its own, reported where it was noticed) must not
+	// wedge the harness as well: Close gets a bounded wait
+	done := make(chan struct{})
+	go func() { defer close(done); q.b.Close() }()
+	select {
+	case <-done:
+	case <-time.After(vlib.StallBudget()):
+	}
 	fpgo.SetVerifHook(nil)
 }
 
@@ -223,10 +230,37 @@ type result struct {
 	inconclusive     string
 }
 
+// runSeq runs one sequential history under a hang guard: every call of the history is made by ONE
+// goroutine with nobody else using the queue, so a call that never returns ("Offer/Poll never block", and
+// nothing a single caller does can wait for somebody else) is a violation, not a reason to wait for the
+// test binary's time limit.
 func runSeq(s seqCase) result {
-	var res result
 	schedMu.Lock()
 	defer schedMu.Unlock()
+	done := make(chan result, 1)
+	go seqRunner(s, done)
+	select {
+	case res := <-done:
+		return res
+	case <-time.After(6 * vlib.StallBudget()):
+	}
+	verdict, dump := vlib.ClassifyStall([]string{"c07.seqRunner"})
+	select {
+	case res := <-done:
+		return res
+	default:
+	}
+	if verdict == "blocked" {
+		return result{failKey: "C07/blocks", failMsg: fmt.Sprintf("a sequential history (one goroutine, nobody else uses the queue) does not finish: a queue call blocks for ever\n%s", dump)}
+	}
+	return result{inconclusive: "sequential history slow: " + verdict}
+}
+
+// seqRunner is the goroutine of one sequential history (its name is looked up in goroutine dumps).
+func seqRunner(s seqCase, done chan<- result) { done <- runSeqHistory(s) }
+
+func runSeqHistory(s seqCase) result {
+	var res result
 	q := newQueue(s.Cfg, s.Plan)
 	defer q.close()
 	cfg := s.Cfg
@@ -756,7 +790,9 @@ func runConc(c concCase) result {
 	harness := len(c.Consumers)
 	_ = harness
 	atomic.StoreInt32(&stop, 1)
-	samplerWg.Wait()
+	if !waitWG(&samplerWg, "c07.runConc", "Count()") {
+		return res
+	}
 	missing := int64(totalAccepted) - atomic.LoadInt64(&delivered)
 	var countAtEnd int
 	quiescedOK := true
